@@ -33,7 +33,9 @@ def draw_name(ch, cat, label):
     """A child name: one of a few fixed ones (so that operations collide on names) or a drawn composition of base letters and
     combining marks (every mark the NFC quick-check treats specially: U+0300 itself, marks that reorder, Hangul jamo), in
     composed or decomposed spelling."""
-    if ch.chance(cat, ("name-fixed",) + tuple(label), 0.6):
+    if ch.chance(cat, ("name-hot",) + tuple(label), 0.35):
+        return ch.pick(cat, ("name-h",) + tuple(label), ["a", "b", "c"])      # few names, so that operations meet on them
+    if ch.chance(cat, ("name-fixed",) + tuple(label), 0.45):
         return ch.pick(cat, ("name",) + tuple(label), NAMES)
     out = ""
     for u in range(ch.randint(cat, ("name-units",) + tuple(label), 1, 3)):
@@ -99,7 +101,7 @@ def gen_dir(seed, tier, focus):
         elif kind == "delete":
             ops.append(["delete", d, name, ch.chance(W, ("mx", i), 0.7), ch.pick(W, ("must", i), [None, None, "file", "dir"])])
         elif kind == "move":
-            ops.append(["move", d, name, ch.randrange(W, ("d2", i), 3), (None if ch.chance(W, ("n2-none", i), 0.1) else draw_name(ch, W, ("n2", i))), ch.pick(W, ("ow", i), [True, False, "only-files"])])
+            ops.append(["move", d, name, ch.randrange(W, ("d2", i), 3), (None if ch.chance(W, ("n2-none", i), 0.25) else draw_name(ch, W, ("n2", i))), ch.pick(W, ("ow", i), [True, False, "only-files"])])
         elif kind == "setmd":
             ops.append(["setmd", d, name, ch.pick(W, ("md", i), [{}, {"x": 1}, {"no-write": True}, {"deep": {"l": [1, [2, [3]]]}}])])
         elif kind == "mkdir":
@@ -276,10 +278,16 @@ def exec_dir(case):
                 return "file"
             return "unknown"
 
-        def apply_add(didx, entries, overwrite, now):
+        def apply_add(didx, entries, overwrite, now, validate_first=True):
             """model of Adder.modify over several entries (all-or-nothing). returns error class or None"""
             d = W.dirs[didx]
             new = {k_: dict(v) for k_, v in d["children"].items()}
+            # (given caps, the nodes of all entries are built and validated before the directory is looked at; given nodes,
+            # the entries are examined one by one in the order given: see the callers)
+            if validate_first:
+                for (name, caps, md) in entries:
+                    if caps[0] is not None and caps[1] is None and not caps[0].startswith((b"URI:", b"ro.", b"imm.")):
+                        return MustNotBeUnknownRWError
             for (name, caps, md) in entries:
                 nname = norm(name)
                 old_md = None
@@ -592,7 +600,10 @@ def exec_dir(case):
                 err = apply_add(didx, [(n_, c_, m_) for (n_, c_, m_) in mentries if n_ in entries], ow, now)
                 if err is not None:
                     d["children"] = before
-                    expect_error(st, res, (err,), "set_children(overwrite=%r)" % (ow,))
+                    # which of two applicable refusals is reported depends on whether caps or ready-made nodes were handed over
+                    err_b = apply_add(didx, [(n_, c_, m_) for (n_, c_, m_) in mentries if n_ in entries], ow, now, validate_first=False)
+                    d["children"] = before
+                    expect_error(st, res, tuple(sorted(set([err, err_b or err]), key=lambda c_: c_.__name__)), "set_children(overwrite=%r)" % (ow,))
                 elif st != "ok":
                     d["children"] = before
                     bad("C20", "setchildren-failed", "set_children failed: %s" % res_tb(res), sig="C20.setchildren-failed." + err_name(res))
